@@ -174,6 +174,20 @@ TOKEN_OF = {"gzip": b"gzip", "zlib": b"deflate", "raw": b"deflate"}
 UNKNOWN_TOKENS = [b"foobar", b"identity", b"x-unknown", b"", b"br", b"a b", b"x-gzip", b"X-GZip", b"x-deflate", b"x-compress", b"x-snappy-framed", b"X-Private-Coding", b"gzipx", b"x-"]
 
 
+def _dictionary_pools():
+    from . import extremes, srcdict
+    d = srcdict.load()
+    toks = [t for t in d["tokens"] if b"," not in t and b"\r" not in t and b"\n" not in t]
+    names = sorted(set(extremes.HEADERS_OF_INTEREST) | set(d["names"]))
+    unknown = [t for t in toks if t.lower() not in (b"gzip", b"deflate") and b" " not in t]
+    pairs = [(h, t) for h in names for t in toks if h.lower() not in (b"content-encoding", b"content-length")]
+    return unknown, pairs, toks
+
+
+DICT_UNKNOWN, DICT_PAIRS, DICT_TOKENS = _dictionary_pools()
+UNKNOWN_TOKENS = UNKNOWN_TOKENS + [t for t in DICT_UNKNOWN if t not in UNKNOWN_TOKENS]
+
+
 def spell(rng, tok):
     return rng.pick([b"", b" ", b"\t", b"  "]) + gen.randcase(rng, tok) + rng.pick([b"", b" ", b"\t"])
 
@@ -239,7 +253,7 @@ def gen_decode_case(rng, depth=None, unknown_p=0.3, big_p=0.0, split_p=0.25, cor
     if rng.chance(1, 2):
         hs.append((b"X-After", b"3"))
     for _ in range(rng.below(3) if rng.chance(1, 2) else 0):
-        hs.insert(rng.below(len(hs) + 1), rng.pick([(b"Transfer-Encoding", b"foobar"), (b"Transfer-Encoding", b"chunked"), (b"Content-Type", b"text/plain"),
+        hs.insert(rng.below(len(hs) + 1), rng.pick(DICT_PAIRS) if DICT_PAIRS and rng.chance(1, 3) else rng.pick([(b"Transfer-Encoding", b"foobar"), (b"Transfer-Encoding", b"chunked"), (b"Content-Type", b"text/plain"),
                                                      (b"Trailer", b"X-T"), (b"Content-MD5", b"abc=="), (b"Host", b"h"), (b"Content-Range", b"bytes 0-1/2"),
                                                      (b"content-type", b"application/gzip"), (b"Vary", b"Accept-Encoding"), (b"ETag", b"\"x\"")]))
     info = {"data": data, "depth": depth, "layers": layers, "all_toks": all_toks, "keep": keep, "undone": undone,
@@ -762,6 +776,17 @@ def gen_content_type(rng):
         params.insert(rng.below(len(params) + 1), cs)
         if rng.chance(1, 8):
             params.append(b"charset=" + rng.pick(UTF8_LABELS + LATIN1_LABELS + UNKNOWN_LABELS))
+    if DICT_TOKENS and rng.chance(1, 6):       # a literal of the source as type, subtype, parameter name or label
+        t = rng.pick(DICT_TOKENS)
+        k2 = rng.below(4)
+        if k2 == 0:
+            ty = t
+        elif k2 == 1:
+            sub = t
+        elif k2 == 2:
+            params.insert(rng.below(len(params) + 1), t + b"=utf-8")
+        else:
+            params.insert(rng.below(len(params) + 1), gen.randcase(rng, b"charset") + b"=" + t)
     v = ty + sep + sub
     for p in params:
         v += rng.pick([b";", b"; ", b" ;", b";\t", ";  ".encode(), "; ".encode(), b" ; "]) + p + rng.pick([b"", b"", b" ", " ".encode()])
